@@ -93,6 +93,9 @@ def body_messages(body: str, rid: Any) -> List[dict]:
     N1 = {**j, "method": "notifications/message", "params": {"data": "one"}}
     N2 = {**j, "method": "notifications/progress", "params": {"progressToken": "t", "progress": 1}}
     W = {**j, "id": "someone-else", "result": {"w": 1}}
+    if body.startswith("big-"):
+        # one response whose text makes the line longer than any plausible buffer limit
+        return [{**j, "id": rid_eff, "result": {"text": "\u00e9" + "x" * int(body.split("-")[1]) + "\U0001F600"}}]
     if body.startswith("burst-"):
         # N notifications followed by the response, all in ONE body: more than the read stream buffers
         n = int(body.split("-")[1])
@@ -219,7 +222,25 @@ def behaviours_error_objects() -> List[Dict[str, Any]]:
     return bs
 
 
-BEHAVIOURS = behaviours() + behaviours_error_objects()
+JSON_CT_PARAMS = ["charset=utf-8", "charset=UTF-8", "charset=ISO-8859-1", "charset=us-ascii", "charset=bogus",
+                  'charset="utf-8"', "profile=x"]
+
+
+def behaviours_json_content_types() -> List[Dict[str, Any]]:
+    """JSON bodies are UTF-8 whatever the Content-Type's parameters say (RFC 8259); a leading BOM may be ignored."""
+    bs = []
+    for body in ("resp", "batch"):
+        for p in JSON_CT_PARAMS:
+            bs.append({"status": 200, "ctype": "json", "body": body, "ct_param": p})
+    for p in (None, "charset=utf-8", "charset=ISO-8859-1"):
+        b = {"status": 200, "ctype": "json", "body": "resp", "bom": True}
+        if p:
+            b["ct_param"] = p
+        bs.append(b)
+    return bs
+
+
+BEHAVIOURS = behaviours() + behaviours_error_objects() + behaviours_json_content_types()
 OK_B = {"status": 200, "ctype": "json", "body": "resp"}
 CT = {"json": "application/json", "sse": "text/event-stream", "text": "text/plain; charset=utf-8"}
 
@@ -268,9 +289,12 @@ def render(b: Dict[str, Any], rid: Any) -> Tuple[bytes, Optional[str]]:
     if body == "nonutf8":
         return b'\xff\xfe{"jsonrpc":"2.0"', ctype
     msgs = body_messages(body, rid)
+    if b.get("ct_param") and ctype:
+        ctype = f"{ctype}; {b['ct_param']}"
+    bom = b"\xef\xbb\xbf" if b.get("bom") else b""
     if body == "batch" or body.startswith("burst-"):
-        return json.dumps(msgs, ensure_ascii=False).encode("utf-8"), ctype
-    return json.dumps(msgs[0], ensure_ascii=False).encode("utf-8"), ctype
+        return bom + json.dumps(msgs, ensure_ascii=False).encode("utf-8"), ctype
+    return bom + json.dumps(msgs[0], ensure_ascii=False).encode("utf-8"), ctype
 
 
 def expected(b: Dict[str, Any], rid: Any) -> Dict[str, Any]:
@@ -279,6 +303,10 @@ def expected(b: Dict[str, Any], rid: Any) -> Dict[str, Any]:
         return {"alts": [], "synth": True}
     raw, ctype = render(b, rid)
     if b["ctype"] == "json":
+        if b.get("bom"):
+            # RFC 8259: a parser MAY ignore a leading BOM - the messages or a synthesised terminal
+            msgs = messages_of_json(raw[3:])
+            return {"alts": [msgs], "synth": True}
         msgs = messages_of_json(raw)
         return {"alts": [msgs], "synth": False} if msgs else {"alts": [], "synth": True}
     if b["ctype"] == "sse":
@@ -360,7 +388,9 @@ def run_one(ctl: explorer.Ctl, cfg: Dict[str, Any]) -> Dict[str, Any]:
         with patched_httpx(handler) as px:
             info["px"] = px
             kw = {"max_concurrent_requests": cfg["max_concurrent"]} if cfg.get("max_concurrent") else {}
-            params = StreamableHTTPParameters(url=URL, timeout=5.0, **kw)
+            kw.update(cfg.get("params") or {})
+            kw.setdefault("timeout", 5.0)
+            params = StreamableHTTPParameters(url=URL, **kw)
             async with http_client(params) as (read, write):
                 for n, s in enumerate(steps):
                     if rids[n] is None:
@@ -404,7 +434,32 @@ def run_one(ctl: explorer.Ctl, cfg: Dict[str, Any]) -> Dict[str, Any]:
     if not px.requests:
         raise core.HarnessError("seam missing: no request reached httpx.AsyncHTTPTransport.handle_async_request")
     got_dumped = [[dump_msg(m) for m in g] for g in got_per_step]
-    summary, viol = judge(steps, rids, got_dumped, [(r.json(), r.headers) for r in posts])
+    opts = cfg.get("params") or {}
+    supplied = [v for k, v in (opts.get("headers") or {}).items() if k.lower() == "mcp-session-id"]
+    initial = opts.get("session_id") or (supplied[0] if supplied else None)
+    lines = [[v for k, v in r.raw_headers if k == "mcp-session-id"] for r in posts]
+    summary, viol = judge(steps, rids, got_dumped, [(r.json(), r.headers) for r in posts], initial_session=initial,
+                          session_lines=lines)
+    # every request is written to the server ONCE
+    per_id: Dict[str, int] = {}
+    for r in posts:
+        j = r.json()
+        key = json.dumps(j.get("id") if isinstance(j, dict) else None)
+        per_id[key] = per_id.get(key, 0) + 1
+    for n, rid in enumerate(rids):
+        if rid is not None and per_id.get(json.dumps(rid), 0) > 1:
+            viol.append({"sig": {"class": "request-posted-twice", **_tag(_beh(steps[n]))},
+                         "msg": f"steps={steps}: request {n} (id {rid!r}) was POSTed {per_id[json.dumps(rid)]} times"})
+    if len(posts) > len(steps):
+        obs["extra_posts"] = len(posts) - len(steps)
+    for name, value in ((opts.get("headers") or {}).items()):
+        if name.lower() in ("content-type", "accept", "mcp-session-id"):
+            continue
+        for r in posts:
+            if r.headers.get(name.lower()) != value:
+                viol.append({"sig": {"class": "configured-header-missing", "header": name},
+                             "msg": f"steps={steps} options={opts}: a POST carried {name}={r.headers.get(name.lower())!r}"})
+                break
     if errors:
         viol.append({"sig": {"class": "loop-error"}, "msg": f"steps={steps}: {errors[:2]}"})
     if leftover:
@@ -428,7 +483,10 @@ def request_ids(steps) -> List[Any]:
     return rids
 
 
-def judge(steps, rids, got_per_step, posts):
+JUDGE_DUPLICATE_SESSION_HEADER = False   # see the report: the current tree sends the caller's differently spelled header AND its own
+
+
+def judge(steps, rids, got_per_step, posts, initial_session=None, session_lines=None):
     """posts: [(json body, lower-cased headers)] of the POSTs in order.  Returns (summary, violations)."""
     viol: List[dict] = []
     beh = _beh
@@ -437,7 +495,7 @@ def judge(steps, rids, got_per_step, posts):
         return {k: v for k, v in m.items() if v is not None or k == "result"}
 
     summary = []
-    issued = None
+    issued = initial_session
     for n, s in enumerate(steps):
         b = beh(s)
         rid = rids[n]
@@ -463,8 +521,16 @@ def judge(steps, rids, got_per_step, posts):
         sent, hdrs = posts[n]
         want_hdr = issued
         have_hdr = hdrs.get("mcp-session-id")
-        if have_hdr != want_hdr:
-            bad("session-header", f"POST carried Mcp-Session-Id {have_hdr!r}, most recently issued {want_hdr!r}")
+        vals = session_lines[n] if session_lines is not None and n < len(session_lines) else None
+        if vals is not None and len(vals) > 1:
+            # several session header lines on the wire (names compared case-insensitively)
+            if JUDGE_DUPLICATE_SESSION_HEADER:
+                bad("several-session-headers-on-the-wire", f"POST carried {len(vals)} Mcp-Session-Id lines: {vals}")
+            if want_hdr not in vals:
+                bad("session-header", f"POST carried Mcp-Session-Id lines {vals}, none is the most recently issued {want_hdr!r}")
+        elif have_hdr != want_hdr:
+            bad("session-header", f"POST carried Mcp-Session-Id {have_hdr!r}, most recently issued {want_hdr!r}",
+                **({"carried": "the-callers-own-header"} if initial_session is not None and have_hdr == initial_session else {}))
         if not isinstance(sent, dict) or sent.get("id") != rid or (rid is not None and type(sent.get("id")) is not type(rid)):
             bad("posted-body", f"POST body {sent!r}")
         if "exc" not in b and b["status"] < 300 and s.get("session"):
@@ -506,6 +572,8 @@ def _tag(b: Dict[str, Any]) -> Dict[str, Any]:
     status = b["status"]
     sc = "2xx" if status < 300 else ("3xx" if status < 400 else "error-status")
     enc = b.get("enc")
+    if b.get("ct_param") or b.get("bom"):
+        enc = f"content-type-parameter:{b.get('ct_param')}" + ("/leading-BOM" if b.get("bom") else "")
     if "ending" in b:
         enc = f"last-event-ends:{b['ending']}/{'typed' if b.get('typed', True) else 'untyped'}"
     return {"body": b["body"], "ctype": b["ctype"], "encoding": enc}
@@ -947,6 +1015,11 @@ def configs_for(tier: str):
                       {"status": 200, "ctype": "sse", "enc": "crlf"}, {"status": 202, "ctype": "sse", "enc": "canonical"}):
                 g.append({"steps": [{"b": dict(b, body=f"burst-{n}"), "req": rk, "session": None},
                                     {"b": OK_B, "req": "id-a", "session": None}]})
+    for n in (61440, 65535, 65536, 65537, 204800):
+        for b in ({"status": 200, "ctype": "json"}, {"status": 200, "ctype": "sse", "enc": "canonical"},
+                  {"status": 200, "ctype": "sse", "enc": "crlf"}):
+            g.append({"steps": [{"b": dict(b, body=f"big-{n}"), "req": "id-a", "session": None},
+                                {"b": OK_B, "req": "id-7", "session": None}]})
     parts["burst-bodies-drained-after-the-post"] = g
     # long runs of ONE failure class (whatever a failing exchange leaks adds up), then a plain request
     g = []
@@ -996,6 +1069,39 @@ def configs_for(tier: str):
                 g.append({"steps": [{"b": a, "req": "id-a", "session": None}, {"b": b, "req": "id-7", "session": None},
                                     {"b": c, "req": "id-a", "session": None}]})
     parts["consecutive-sse-bodies-by-ending"] = g
+    # a session header supplied by the CALLER (in parameters.headers, any spelling, or as parameters.session_id): ids the
+    # server issues later still take over
+    g = []
+    supplied = [{"headers": {k: "S-caller"}} for k in ("Mcp-Session-Id", "mcp-session-id", "MCP-SESSION-ID", "mCp-SeSsIoN-iD")] + \
+        [{"session_id": "S-caller"}, {"headers": {"X-Other": "1"}}]
+    for opt in supplied:
+        for issue in ([None, None, None], ["S1", None, None], [None, "S2", None], ["S1", "S2", None], ["S1", "S1", "S3"]):
+            steps = [{"b": OK_B, "req": "id-a", "session": x} for x in issue] + [{"b": OK_B, "req": "id-7", "session": None}]
+            g.append({"steps": steps, "params": opt})
+    parts["session-header-supplied-by-the-caller"] = g
+    # every constructor option the transport reads, at a non-default value, x a reduced behaviour set that holds every
+    # SSE prefix / header form: what the endpoint answers decides what is delivered, not the options
+    g = []
+    options = [{"enable_streaming": False}, {"timeout": 0.5}, {"timeout": 120.0}, {"max_concurrent_requests": 1},
+               {"bearer_token": "tok-1"}, {"headers": {"X-A": "1", "Accept-Language": "en"}},
+               {"headers": {"Accept": "application/json", "Content-Type": "text/plain"}}, {"session_id": "S-P"},
+               {"user_agent": "vf-agent/9"}, {"max_retries": 0, "retry_delay": 0.0},
+               {"enable_streaming": False, "session_id": "S-P", "bearer_token": "t", "max_concurrent_requests": 2}]
+    reduced = [{"status": 200, "ctype": "sse", "body": "resp", "enc": _enc_name(p, h, "data-space", "lf")}
+               for p in PREFIXES for h in HEADERS] + \
+        [{"status": 200, "ctype": "sse", "body": "notifs+resp", "enc": "canonical"},
+         {"status": 200, "ctype": "sse", "body": "resp", "enc": "no-final-blank"},
+         {"status": 200, "ctype": "sse", "body": "batch", "enc": "none/event-no-space/multi-data/crlf"},
+         {"status": 200, "ctype": "sse", "body": "empty"}, {"status": 200, "ctype": "json", "body": "resp"},
+         {"status": 200, "ctype": "json", "body": "err"}, {"status": 200, "ctype": "json", "body": "batch"},
+         {"status": 202, "ctype": "absent", "body": "empty"}, {"status": 500, "ctype": "text", "body": "nonjson"},
+         {"status": 401, "ctype": "json", "body": "err"}, {"exc": "connect"}, {"exc": "read-timeout"}]
+    for opt in options:
+        for b in reduced:
+            for rk in ("id-a", "note"):
+                g.append({"steps": [{"b": b, "req": rk, "session": None}, {"b": OK_B, "req": "id-7", "session": None}],
+                          "params": opt})
+    parts["constructor-options-x-reduced-behaviours"] = g
     return parts
 
 
@@ -1006,7 +1112,7 @@ def run(tier: str, only=None) -> core.Result:
             continue
         out = explorer.explore(RUN, cfgs, fidelity=True)
         # (every burst body has the same right outcome: all its messages)
-        sched.absorb(res, name, RUN, out, cfgs, min_outcomes=1 if name.startswith("burst-") else 2)
+        sched.absorb(res, name, RUN, out, cfgs, min_outcomes=1 if name.startswith(("burst-", "session-header-")) else 2)
         sched.debug_pass(res, name, RUN, cfgs, every=7)
     pcfgs = []
     for k in (2, 3):
@@ -1056,6 +1162,10 @@ def run(tier: str, only=None) -> core.Result:
         "distinct = distinct observation digests"
     )
     res.assumptions = [
+        "when the caller configures a session header under another spelling than the transport's own, the current tree sends "
+        "BOTH lines (the caller's and the issued one): reported as an open observation, judged only as 'the most recently issued id "
+        "is among them' until JUDGE_DUPLICATE_SESSION_HEADER is set",
+        "a leading BOM in a JSON body may be ignored or rejected (RFC 8259): its messages or a synthesised terminal are accepted",
         "for a content type other than JSON/event-stream the statement does not say how the body is read: its messages or a synthesised terminal are both accepted",
         "an SSE event not terminated by a blank line at end of body may be delivered or discarded (the WHATWG grammar discards it)",
         "a synthesised terminal may be an error or an (empty) result; for a notification POST an id-less error message is accepted",
